@@ -144,6 +144,21 @@ pub fn run(ctx: &mut Ctx) {
         crate::boundary::c01_cli(ctx);
         crate::boundary::python(ctx, "c01");
     }
+    // (g) width: the width probes of the operator spaces also in the unoptimised profile of this check (a
+    // recursion over the width of an operand list that the optimiser turns into a loop overflows the stack
+    // only without optimisation); in the quick tier the union above runs them in relchk only
+    if !ctx.tier_thorough && ctx.profile == "dev" {
+        ctx.total_only = true;
+        for p in ["C05", "C10", "C11", "C12", "C13", "C14", "C15", "C16"] {
+            let saved = ctx.prop.clone();
+            ctx.prop = p.to_string();
+            ctx.space_tag = Some(format!("{}:width", p));
+            spaces::width_probes(ctx);
+            ctx.prop = saved;
+        }
+        ctx.space_tag = None;
+        ctx.total_only = false;
+    }
     let thorough = ctx.tier_thorough;
     let x = xs(thorough);
     let datas = vec![json!(null), json!({"a": 1, "s": "x"}), json!([1, [2, 3]]), json!("héllo")];
